@@ -218,6 +218,7 @@ CLAUSES = {
     16: "identity set changed, but the children started are not exactly the new configuration",
     17: "identity set changed, yet ReloadWithConfig/Reload was called on a child",
     18: "failed callback, yet a child was touched", 19: "failed callback, but the state is not Error",
+    30: "no Reload() in flight, but the runner does not hold the configuration most recently returned by its callback",
     20: "Running and no reload in progress, but the running children are not exactly the configured ones",
     21: "Stop()/Reload()/Run() still blocked at final quiescence (deadlock)",
     22: "a child is still running after Run() returned",
@@ -301,7 +302,7 @@ def fill_coverage(run, results, cover, summary, scripts, cnt, extra_eval=0, rule
     all_labels = ["RunCall", "ReloadCall", "StopApi", "Cancel", "State", "RunBegin", "ToRunning", "SelCtx", "SelStop",
                   "SelErr", "TransIf", "TearLock", "ToStopped", "RunExit", "RunRet", "BootLock.run", "BootLock.reload",
                   "BootLaunch.run", "BootLaunch.reload", "StopBegin.run", "StopBegin.reload", "StopJoin.run",
-                  "StopJoin.reload", "Cb.init.some", "Cb.init.fail", "Cb.reload.some", "Cb.reload.fail", "KRun",
+                  "StopJoin.reload", "StopCancel.run", "StopCancel.reload", "Cb.init.some", "Cb.init.fail", "Cb.reload.some", "Cb.reload.fail", "KRun",
                   "KExit.nil", "KExit.cancel", "KExit.fail", "KSend", "WCall", "WUnblock", "WRet", "RlLock",
                   "RlSetInPlace", "RlCfg", "RlPlain", "RlSkip", "RlSetCfg", "RlFinish", "RlRet", "SSignal", "SRet"]
     cov["model_labels_never_exercised"] = [l for l in all_labels if l not in cover]
